@@ -3,7 +3,8 @@
 Implementation side: the real `to_json` -> `json.dumps` -> `json.loads` -> `from_json` of
 krrood/adapters/json_serializer.py on values built from harness-defined `SubclassJSONSerializer` subclasses (module
 level, subclass depth 1..5, generic and dataclass style, siblings, multiple inheritance), registered third-party
-types (uuid.UUID, fractions.Fraction, two harness classes), lists and leaves.
+types (uuid.UUID, fractions.Fraction, harness classes), lists and leaves — including classes with IDENTICAL
+`__name__` in three different modules (props.c18 and two modules made at import time), mixed in one value.
 
 Observation (DESIGN 2.3): (value, exact class) of the result, printed structurally, plus the `__json_type__` entry of
 every object of the JSON *text*.  Leaves travel as opaque tokens (ints as decimal, floats as IEEE bit patterns,
@@ -19,6 +20,7 @@ import importlib
 import json
 import re
 import struct
+import sys
 import types
 import typing
 import uuid
@@ -62,7 +64,8 @@ ASSUMPTIONS = [
     "classes are module-level, reachable under __name__ in __module__ (Json.wf); NaN excluded (NaN != NaN)",
 ]
 RULE = ("corpus, then a fixed family (every leaf, every class empty / holding every leaf kind, list nestings to depth 6, "
-        "every registered type, every class in one list), then random values of depth <= 5 (quick) / 7 (thorough) over the "
+        "every registered type, every class in one list, classes sharing one __name__ across three modules side by side / "
+        "nested in every order), then random values of depth <= 5 (quick) / 7 (thorough) over the "
         "harness class zoo; every case goes through real JSON text; non-trivial = the value contains at least one object "
         "or a list nested in a list; distinct by case text")
 
@@ -262,6 +265,114 @@ LAST_DISPATCH: List[Tuple[type, str]] = []
 
 def _note_dispatch(cls, via):
     LAST_DISPATCH.append((cls, via))
+
+
+# classes with IDENTICAL __name__ in DIFFERENT modules ---------------------------------------------------------
+# Two more modules are created programmatically and registered in sys.modules (so importlib.import_module finds
+# them like any imported submodule). Each defines serialisable classes / a registered type whose short names collide
+# with each other and with the classes above (Node, Dog, Money) but whose parents and fields differ. The identity of
+# a class is (module, name): a resolver that remembers classes under their short name gives back the wrong one.
+
+_PKG = __name__.rpartition(".")[0]
+
+
+def _new_module(short: str) -> types.ModuleType:
+    name = f"{_PKG}.{short}" if _PKG else short
+    mod = types.ModuleType(name, "harness-made module for C18/C19: same class names as props.c18, other classes")
+    sys.modules[name] = mod
+    if _PKG and _PKG in sys.modules:
+        setattr(sys.modules[_PKG], short, mod)  # what importing a submodule does
+    return mod
+
+
+def _populate_a(mod):
+    m = mod.__name__
+
+    class Node(NodeA):  # generic, subclass depth 3
+        __module__ = m
+        __qualname__ = "Node"
+
+    class Shape(globals()["Node"]):  # generic, subclass depth 2
+        __module__ = m
+        __qualname__ = "Shape"
+
+    @dataclass(eq=False)
+    class Dog(Animal):  # fields name, age, tricks  (props.c18.Dog: name, age, breed)
+        __module__ = m
+        __qualname__ = "Dog"
+        tricks: Any = None
+
+        def to_json(self):
+            data = super().to_json()
+            data.update({"tricks": to_json(self.tricks)})
+            return data
+
+    class Money:  # a registered plain class, unrelated to props.c18.Money
+        __module__ = m
+        __qualname__ = "Money"
+
+        def __init__(self, s: str):
+            self.s = s
+
+        def __eq__(self, other):
+            return type(self) is type(other) and self.s == other.s
+
+        __hash__ = None
+
+    for c in (Node, Shape, Dog, Money):
+        setattr(mod, c.__name__, c)
+
+
+def _populate_b(mod):
+    m = mod.__name__
+
+    class Node(NodeBA):  # generic, subclass depth 4, other branch
+        __module__ = m
+        __qualname__ = "Node"
+
+    class Shape(NodeAAAA):  # generic, subclass depth 6
+        __module__ = m
+        __qualname__ = "Shape"
+
+    @dataclass(eq=False)
+    class Dog(globals()["Dog"]):  # fields name, age, breed, owner
+        __module__ = m
+        __qualname__ = "Dog"
+        owner: Any = None
+
+        def to_json(self):
+            data = super().to_json()
+            data.update({"owner": to_json(self.owner)})
+            return data
+
+    class Money(Money2):  # registered separately (the registry is keyed by exact type)
+        __module__ = m
+        __qualname__ = "Money"
+
+    for c in (Node, Shape, Dog, Money):
+        setattr(mod, c.__name__, c)
+
+
+MOD_A = _new_module("_c18_mod_a")
+MOD_B = _new_module("_c18_mod_b")
+_populate_a(MOD_A)
+_populate_b(MOD_B)
+
+GENERIC += [MOD_A.Node, MOD_A.Shape, MOD_B.Node, MOD_B.Shape]
+FIXED += [MOD_A.Dog, MOD_B.Dog]
+SER_CLASSES = GENERIC + FIXED
+for _t in (MOD_A.Money, MOD_B.Money):
+    EXT[_t] = ((lambda o: o.s), _t)
+    JSONSerializableTypeRegistry().register(_t, _mk_ser(_t, EXT[_t][0]), _mk_deser(_t, _t))
+EXT_MONEY = [Money, Money2, MOD_A.Money, MOD_B.Money]  # registered types whose deserializer accepts any string
+
+# groups of distinct classes sharing one __name__
+SAME_NAME = [
+    [Node, MOD_A.Node, MOD_B.Node],
+    [Dog, MOD_A.Dog, MOD_B.Dog],
+    [MOD_A.Shape, MOD_B.Shape],
+    [Money, MOD_A.Money, MOD_B.Money],
+]
 
 
 class NotSerializable:  # a plain class nobody registered (C19: ClassNotDeserializableError)
@@ -560,7 +671,7 @@ def gen_ext(rng):
         return Fraction(rng.randrange(-50, 50), rng.randrange(1, 40))
     if k == 2:
         return Money(rng.choice(STRS))
-    return Money2(rng.choice(["", "12.50 EUR", "ü"]))
+    return rng.choice(EXT_MONEY[1:])(rng.choice(["", "12.50 EUR", "ü"]))
 
 
 def gen_value(rng, depth: int):
@@ -585,6 +696,9 @@ def shape_tags(v) -> Tuple[str, ...]:
         out.append(f"subclassdepth{sd}")
     if any(c in EXT for c in cs):
         out.append("registered-type")
+    names = [c.__name__ for c in set(cs)]
+    if len(names) != len(set(names)):
+        out.append("same-name-classes-in-one-value")
     return tuple(out)
 
 
@@ -626,6 +740,40 @@ def fixed_family() -> List[Case]:
         out.append(make_case(v, ("object-nesting",), "exhaustive"))
     out.append(make_case([cls() if cls in GENERIC else _mk(cls, 1) for cls in SER_CLASSES] + exts, ("all-classes",), "exhaustive"))
     out.append(make_case([[NodeA(x=[Dog("d", [Cat(None, 1.5, [])], NodeM())])], []], ("mixed",), "exhaustive"))
+    out += same_name_family()
+    return out
+
+
+def _inst(cls, inner=None):
+    """an instance of any class of the zoo, optionally holding `inner`"""
+    if cls in EXT:
+        return cls("p")
+    names = schema(cls)
+    if names is None:
+        return cls() if inner is None else cls(a=inner)
+    return cls(**{k: (inner if i == 0 else i) for i, k in enumerate(names)})
+
+
+def same_name_family() -> List[Case]:
+    """distinct classes with one __name__ in different modules: alone, side by side in one list (every order),
+    nested inside each other (every order), interleaved"""
+    out = []
+    tag = ("same-name",)
+    for group in SAME_NAME:
+        for c in group:
+            out.append(make_case(_inst(c), tag, "exhaustive"))
+        for c in group:
+            for d in group:
+                if c is d:
+                    continue
+                out.append(make_case([_inst(c), _inst(d)], tag, "exhaustive"))
+                out.append(make_case([_inst(c), _inst(d), _inst(c)], tag, "exhaustive"))
+                if c not in EXT:
+                    out.append(make_case(_inst(c, _inst(d)), tag, "exhaustive"))
+                    out.append(make_case(_inst(c, [_inst(d, _inst(c))]), tag, "exhaustive"))
+        out.append(make_case([_inst(c) for c in group] + [_inst(c) for c in reversed(group)], tag, "exhaustive"))
+    out.append(make_case([_inst(c) for g in SAME_NAME for c in g], tag, "exhaustive"))
+    out.append(make_case([_inst(c) for g in SAME_NAME for c in reversed(g)], tag, "exhaustive"))
     return out
 
 
@@ -730,8 +878,28 @@ def tags_walk(v, j) -> List[str]:
     return []
 
 
+_PRELUDE_DONE = False
+
+
+def _prelude() -> None:
+    """Process history common to every run, replays included: before the first case one instance of every class of
+    the zoo has been through the real round trip once, in a fixed order. (The same values are ordinary checked cases
+    of the fixed family; here only the history matters — a resolver that keeps state between calls, e.g. a cache keyed
+    by the short class name, then misbehaves reproducibly on a single later value.)"""
+    global _PRELUDE_DONE
+    if _PRELUDE_DONE:
+        return
+    _PRELUDE_DONE = True
+    for cls in SER_CLASSES + list(EXT_MONEY):
+        try:
+            from_json(json.loads(json.dumps(to_json(_inst(cls)))))
+        except Exception:  # noqa: BLE001  reported by the corresponding case, not here
+            pass
+
+
 def _one(case: Case) -> str:
     tags = "!none"
+    _prelude()
     try:
         v = case.payload if case.payload is not None else revive(case).payload
         j = to_json(v)
